@@ -352,9 +352,10 @@ func (_this *cteListener) ExitValueFloat(ctx *parser.ValueFloatContext) {
 }
 
 // compact_float computes the stored exponent (written exponent minus the
-// number of fraction digits) in 32 bits without a range check, so a literal
-// at the bottom of the range wraps around (1.55e-2147483647 became
-// 1.55e+2147483649, 1.55e-2147483646 a NaN). Only let it parse literals whose
+// number of fraction digits, plus the trailing zeros it strips from the
+// coefficient) in 32 bits without a range check, so a literal at either end of
+// the range wraps around (1.55e-2147483647 became 1.55e+2147483649,
+// 1.55e-2147483646 a NaN, 10e2147483647 an infinity). Only let it parse literals whose
 // stored exponent fits; the others go to the big decimal path, which checks.
 func decimalExponentFits(str string) bool {
 	mantissa := str
@@ -369,8 +370,17 @@ func decimalExponentFits(str string) bool {
 	}
 	if i := strings.IndexByte(mantissa, '.'); i >= 0 {
 		exponent -= int64(len(mantissa) - i - 1)
+		mantissa = mantissa[:i] + mantissa[i+1:]
 	}
-	return exponent > math.MinInt32 && exponent <= math.MaxInt32
+	if exponent <= math.MinInt32 {
+		return false
+	}
+	// Trailing zeros of the coefficient are moved into the exponent
+	trimmed := strings.TrimRight(mantissa, "0")
+	if len(trimmed) > 0 {
+		exponent += int64(len(mantissa) - len(trimmed))
+	}
+	return exponent <= math.MaxInt32
 }
 
 // Parse an unsigned decimal float literal (digits[.digits][e[+-]digits]) into
